@@ -1,4 +1,5 @@
 import A816.Model.OpsBasic
+import A816.Model.OpsExpr
 /-! Line-protocol driver: one operation per line on stdin, one canonical answer per line on stdout.
     This file contains the only `partial def` of the project (the I/O loop); no theorem imports it. -/
 open A816
@@ -6,6 +7,9 @@ open A816
 def handle (line : String) : String :=
   let ws := (line.splitOn " ").filter (· ≠ "")
   match Ops.handleBasic ws with
+  | some r => r
+  | none =>
+  match Ops.handleExpr ws with
   | some r => r
   | none => "bad-op"
 
